@@ -20,6 +20,7 @@ switched off.  This engine covers what that leaves out:
                             NewResourceManager/OpenConnection/Done; abstract addresses concretised over families (IPv4, IPv6,
                             IPv4-mapped IPv6, zoned, netip.Addr{}), prefix lengths with the distinguishing bit at the boundary,
                             host-bit spellings of prefixes, tick lengths 250 ms..10 s (all token arithmetic exact in float64)
+  identify                  call-site sanity check: Start registers IDPush wrapped in rateLimiter.Limit, keyed by the REMOTE address
   monitors (L1)             from the harness's own integer ledger (internal/vfc03rate), not from the model: R1 window bound for
                             every bucket, R2 no spurious refusal under the documented accounting, R6 both halves (in-package
                             read of the heaps), Limit-wrapper contract, caps / spurious conn refusal / error kind for the manager
@@ -29,16 +30,14 @@ import os
 import time
 
 from lib import evidence, goenv, graph, tlc
-from lib.common import MachineryError, classify_mismatches, log
+from lib.common import HarnessCrash, MachineryError, classify_mismatches, log
 
 PARENT = "C03"
 PKG_RATE = "./x/rate"
 PKG_RCMGR = "./p2p/host/resource-manager"
+PKG_IDENTIFY = "./p2p/protocol/identify"
 
-LIM_INV = "INVARIANTS TypeOK BoundOK ForgetSound ExpiryCovers"
-LIM_PROPS = "PROPERTIES Retention DecisionOK PrefixExempt RefusalInert Independence ChargeOnce"
-CONN_INV = "INVARIANTS TypeOK BoundOK ForgetSound ExpiryCovers CTypeOK CountsExact CapsHold EntCovers"
-CONN_PROPS = "PROPERTIES ConnDecisionOK RateFirst DropAtZero BogusInert"
+# (the invariants / action properties checked are those of the cfg templates spec/C03rate_MC.cfg, C03rate_ConnMC.cfg, C03rate_ConcMC.cfg)
 
 # vacuity is counted on the printed graphs (every VIEW-distinct transition is printed): kinds that must occur per instance
 LIM_INSTANCES = {
@@ -49,7 +48,9 @@ LIM_INSTANCES = {
     "b0": ["Allow:np1", "Allow:sub1"],
     "vsa": ["Allow:np1", "Allow:sub1", "Allow:sub2", "forgot"],
     "vsanp": ["Allow:np1", "Allow:np2", "Allow:np3", "Allow:sub1"],
+    "sub4L": ["Allow:sub1", "Allow:sub2", "Allow:glob", "forgot", "Tick"],       # thorough tier only
 }
+THOROUGH_ONLY = ("sub4L", "jointM", "jointL")
 CONN_INSTANCES = {"c4": 3, "c6": 3, "joint": 2, "jointM": 2, "jointL": 3}  # MaxLive; jointM: thorough; jointL: thorough, exhaustive only
 # quick tier: share of a big printed graph that is replayed (seeded covering sample); thorough replays every transition
 QUICK_SAMPLE = {"joint": 25000, "c6": 15000}
@@ -91,7 +92,7 @@ def _conn_one(args):
     limit = QUICK_SAMPLE.get(inst) if ctx.quick else None
     t0 = time.time()
     if inst == "jointL":
-        r1 = tlc.run(ctx, "C03rate_ConnMC", "gen_%s_mc.cfg" % inst, cfg_text=tlc.subst_cfg("C03rate_ConnMC.cfg", consts), workers=2,
+        r1 = tlc.run(ctx, "C03rate_ConnMC", "gen_%s_mc.cfg" % inst, cfg_text=tlc.subst_cfg("C03rate_ConnMC.cfg", consts), workers=1,
                      timeout=1500, name="mc" + inst)
         if not r1.ok:
             raise MachineryError("design-level failure in C03rate_Conn %s: %s violated\n%s" % (inst, r1.violated, r1.out[-1500:]))
@@ -139,6 +140,38 @@ def _job(a):
     return a[0](a[1])
 
 
+_CODE = ("x/rate/limiter.go", "resource-manager/conn_limiter.go", "resource-manager/conn_rate_limiter.go", "resource-manager/rcmgr.go")
+
+
+def _harness(ctx, pkg, test, **kw):
+    """run_harness; a test process killed by a panic raised inside the code under test (the harness recovers panics on
+    its own goroutines, so this is a panic it could not catch) is a violation if it happens again (cf. checks/C15.py)."""
+    import re
+    pat = re.compile(r"^(?:panic|fatal error): (.*)$|^(WARNING: DATA RACE)$", re.M)
+
+    def verdict(e):
+        m = pat.search(e.log)
+        return (m.group(1) or m.group(2)) if (m and any(c in e.log for c in _CODE)) else None
+
+    try:
+        return goenv.run_harness(ctx, pkg, test, **kw)
+    except HarnessCrash as e:
+        why = verdict(e)
+        if not why:
+            raise
+        try:
+            return goenv.run_harness(ctx, pkg, test, **kw)
+        except HarnessCrash as e2:
+            why2 = verdict(e2)
+            if why2:
+                cls = "limiter-data-race" if ("DATA RACE" in why2 or "concurrent map" in why2) else "limiter-panic"
+                return {"replayed": 1, "steps": 0, "distinct": 0, "samples": [], "extra": {},
+                        "mismatches": [{"class": cls, "what": "%s: the code under test fails: %s" % (test.strip("^$"), why2),
+                                        "got": e2.log[-3000:], "walk": -1, "step": -1}]}
+            raise
+        raise MachineryError("the harness process died once (%s) and not again with the same seed (inconclusive)" % why)
+
+
 def run_part(ctx, thorough):
     """Everything; returns the coverage dictionary (the parent's driver may call this as a part)."""
     marks = []
@@ -157,15 +190,17 @@ def run_part(ctx, thorough):
             out = json.load(f)
     else:
         tlc.stage(ctx)
-        conn_insts = [i for i in CONN_INSTANCES if thorough or i not in ("jointL", "jointM")]
-        big_first = sorted(list(LIM_INSTANCES), key=lambda i: i not in ("vsa", "sub4"))
-        jobs = [(_conn_one, (ctx, i, beh)) for i in sorted(conn_insts, key=lambda i: not i.startswith("joint"))] + \
-               [(_lim_one, (ctx, i, beh)) for i in big_first] + [(_conc_one, (ctx, i)) for i in CONC_INSTANCES]
+        prio = ["jointL", "jointM", "sub4L", "joint", "sub4", "c6", "v6", "c4", "vsa"]      # longest first
+        jobs = [(_conn_one, (ctx, i, beh)) for i in CONN_INSTANCES] + [(_lim_one, (ctx, i, beh)) for i in LIM_INSTANCES] + \
+               [(_conc_one, (ctx, i)) for i in CONC_INSTANCES]
+        jobs = [j for j in jobs if thorough or j[1][1] not in THOROUGH_ONLY]
+        jobs.sort(key=lambda j: prio.index(j[1][1]) if j[1][1] in prio else len(prio))
         with cf.ProcessPoolExecutor(max_workers=4) as ex:      # 4 x 1 TLC worker
             out = list(ex.map(_job, jobs))
         import json
         with open(os.path.join(beh, "stats.json"), "w") as f:
             json.dump(out, f)
+    out = [o for o in out if thorough or o["inst"] not in THOROUGH_ONLY]
     lim = [o for o in out if o["inst"] in LIM_INSTANCES]
     for o in lim + [x for x in out if x["inst"] in CONN_INSTANCES]:
         o["replayed_share"] = "sample" if (ctx.quick and o["inst"] in QUICK_SAMPLE) else "all"
@@ -185,24 +220,24 @@ def run_part(ctx, thorough):
     viol0 = len(ctx.violations)
     div = 0
     # (1) x/rate: replay, concurrency, zero-RPS probe
-    res = goenv.run_harness(ctx, PKG_RATE, "^TestVerifC03rateReplay$", inputs=beh, timeout=1500)
+    res = _harness(ctx, PKG_RATE, "^TestVerifC03rateReplay$", inputs=beh, timeout=1500)
     div += classify_mismatches(ctx, res, "replay")
     want = sum(o["steps"] for o in lim)
     if not res["mismatches"] and res["steps"] != want:
         raise MachineryError("x/rate replay executed %d steps for %d in the walks" % (res["steps"], want))
     mark("replay")
     seqs, rounds = (150, 60) if thorough else (30, 40)
-    conc_h = goenv.run_harness(ctx, PKG_RATE, "^TestVerifC03rateConc$", inputs=beh, timeout=1500, race=thorough,
+    conc_h = _harness(ctx, PKG_RATE, "^TestVerifC03rateConc$", inputs=beh, timeout=1500, race=True,
                                env={"VERIF_C03RATE_CONC_SEQS": seqs, "VERIF_C03RATE_CONC_ROUNDS": rounds})
     div += classify_mismatches(ctx, conc_h, "conc")
     if not conc_h["mismatches"] and not (conc_h.get("extra") or {}).get("conc_batches_split_over_one_address"):
         raise MachineryError("vacuous concurrency run: no batch had one address both allowed and refused")
     mark("conc")
-    zero = goenv.run_harness(ctx, PKG_RATE, "^TestVerifC03rateZero$", timeout=900)
+    zero = _harness(ctx, PKG_RATE, "^TestVerifC03rateZero$", timeout=900)
     div += classify_mismatches(ctx, zero, "zero")
     mark("zero")
     # (2) resource manager: connLimiter in-package and through OpenConnection/Done, VerifySourceAddress, default configuration
-    connh = goenv.run_harness(ctx, PKG_RCMGR, "^TestVerifC03rateConn$", inputs=beh, timeout=1500)
+    connh = _harness(ctx, PKG_RCMGR, "^TestVerifC03rateConn$", inputs=beh, timeout=1500)
     div += classify_mismatches(ctx, connh, "conn")
     want = sum(o["steps"] for o in conn)
     if not connh["mismatches"] and connh["steps"] != want:
@@ -211,16 +246,20 @@ def run_part(ctx, thorough):
     if not connh["mismatches"] and not (cx.get("walks_direct") and cx.get("walks_manager")):
         raise MachineryError("vacuous conn replay: %s" % cx)
     mark("conn")
-    vsa = goenv.run_harness(ctx, PKG_RCMGR, "^TestVerifC03rateVSA$", inputs=beh, timeout=1500)
+    vsa = _harness(ctx, PKG_RCMGR, "^TestVerifC03rateVSA$", inputs=beh, timeout=1500)
     div += classify_mismatches(ctx, vsa, "vsa")
     want = sum(o["steps"] for o in lim if o["inst"].startswith("vsa"))
     if not vsa["mismatches"] and vsa["steps"] != want:
         raise MachineryError("VerifySourceAddress replay executed %d steps for %d in the walks" % (vsa["steps"], want))
-    dflt = goenv.run_harness(ctx, PKG_RCMGR, "^TestVerifC03rateDefaults$", timeout=1500, env={"VERIF_C03RATE_DEFAULT_SEQS": 200 if thorough else 40})
+    dflt = _harness(ctx, PKG_RCMGR, "^TestVerifC03rateDefaults$", timeout=1500, env={"VERIF_C03RATE_DEFAULT_SEQS": 200 if thorough else 40})
     div += classify_mismatches(ctx, dflt, "defaults")
     if not dflt["mismatches"] and dflt["distinct"] < 20:
         raise MachineryError("vacuous default-configuration run: %d distinct (address, result) cases" % dflt["distinct"])
-    mark("vsa+defaults")
+    idc = _harness(ctx, PKG_IDENTIFY, "^TestVerifC03rateIdentifyCallSite$", timeout=1500)
+    div += classify_mismatches(ctx, idc, "identify")
+    if not idc["mismatches"] and idc["distinct"] < 9:
+        raise MachineryError("identify call-site check ran %d of its cases" % idc["distinct"])
+    mark("vsa+defaults+identify")
     cov = {
         "conn_replay_steps_executed": connh["steps"], "conn_replay_walks": connh["replayed"], "conn_replay_distinct_cases": connh["distinct"],
         "conn_walks_direct_connLimiter": cx.get("walks_direct"), "conn_walks_through_manager": cx.get("walks_manager"),
@@ -228,12 +267,14 @@ def run_part(ctx, thorough):
         "vsa_replay_steps_executed": vsa["steps"], "vsa_replay_walks": vsa["replayed"], "vsa_distinct_cases": vsa["distinct"],
         "defaults_sequences": dflt["replayed"], "defaults_steps": dflt["steps"], "defaults_distinct_cases": dflt["distinct"],
         "defaults_extra": dflt.get("extra"),
+        "identify_call_site_pushes": idc["steps"], "identify_call_site_cases": idc["distinct"],
         "limiter_instances": {o["inst"]: {k: o[k] for k in ("states", "generated", "edges", "walks", "steps", "wall", "replayed_share")} for o in lim},
         "conn_instances": {o["inst"]: {k: o[k] for k in ("states", "generated", "edges", "walks", "steps", "wall", "replayed_share")} for o in conn},
         "concurrent_instances": {o["inst"]: {k: o[k] for k in ("states", "generated", "wall")} for o in conc},
         "transition_kinds": {o["inst"]: o["kinds"] for o in lim + conn},
         "replay_steps_executed": res["steps"], "replay_walks": res["replayed"], "replay_distinct_cases": res["distinct"],
         "replay_via_limit_wrapper": (res.get("extra") or {}).get("via_limit_wrapper", 0),
+        "replay_rest_probes": (res.get("extra") or {}).get("rest_probes", 0),
         "concurrent_sequences": conc_h["replayed"], "concurrent_calls": conc_h["steps"], "concurrent_distinct": conc_h["distinct"],
         "concurrent_batches_split_over_one_address": (conc_h.get("extra") or {}).get("conc_batches_split_over_one_address", 0),
         "zero_probe": zero.get("extra"),
@@ -241,7 +282,7 @@ def run_part(ctx, thorough):
     }
     states = sum(o["states"] for o in out)
     trans = sum(o["generated"] for o in out)
-    traces = res["replayed"] + conc_h["replayed"] + zero["replayed"] + connh["replayed"] + vsa["replayed"] + dflt["replayed"]
+    traces = res["replayed"] + conc_h["replayed"] + zero["replayed"] + connh["replayed"] + vsa["replayed"] + dflt["replayed"] + idc["replayed"]
     log("C03rate: %d states, %d transitions generated; %s; new violations %d; L2 %d" % (states, trans, marks, len(ctx.violations) - viol0, div))
     return {"states": states, "transitions": trans, "replayed": traces, "samples": (res.get("samples") or [])[:3], "coverage": cov,
             "cmd": "tlc C03rate_MC.tla / C03rate_ConnMC.tla / C03rate_ConcMC.tla (templates instantiated per instance)"}
